@@ -279,6 +279,24 @@ func (w *feWalker) walk(st *feState) {
 				if rec || !w.Inline(callee, len(st.frames)) {
 					continue
 				}
+				// a call whose result the caller of the walker pinned (Assume) is not followed:
+				// its outcome is given
+				pinned := false
+				if _, ok := w.Assume[ssa.Value(call)]; ok {
+					pinned = true
+				}
+				if refs := call.Referrers(); refs != nil {
+					for _, ref := range *refs {
+						if ex, ok := ref.(*ssa.Extract); ok {
+							if _, ok := w.Assume[ex]; ok {
+								pinned = true
+							}
+						}
+					}
+				}
+				if pinned {
+					continue
+				}
 				// bind parameters and free variables
 				for i, prm := range callee.Params {
 					if i < len(fc.Args) {
@@ -429,6 +447,21 @@ func (w *feWalker) evalVal(st *feState, v ssa.Value) feVal {
 func (w *feWalker) eval(st *feState, v ssa.Value) (constant.Value, bool) {
 	if c, ok := w.Assume[v]; ok {
 		return c, true
+	}
+	// len(x) of the same SSA value x is the same number wherever it is evaluated (no CSE in
+	// go/ssa: `if len(x) == 0 {..}; if len(x) == 1 {..}` has two calls)
+	if c, ok := v.(*ssa.Call); ok {
+		if bi, ok := c.Call.Value.(*ssa.Builtin); ok && bi.Name() == "len" && len(c.Call.Args) == 1 {
+			if _, isSlice := c.Call.Args[0].Type().Underlying().(*types.Slice); isSlice || isStringType(c.Call.Args[0].Type()) {
+				for k, kv := range w.Assume {
+					if kc, ok := k.(*ssa.Call); ok && kc != c {
+						if kb, ok := kc.Call.Value.(*ssa.Builtin); ok && kb.Name() == "len" && kc.Call.Args[0] == c.Call.Args[0] {
+							return kv, true
+						}
+					}
+				}
+			}
+		}
 	}
 	// a free condition already taken on this path is known
 	for _, f := range st.free {
